@@ -301,6 +301,24 @@ func (ba *flatBlobAccess) GetFromComposite(ctx context.Context, parentDigest, ch
 		}
 		ba.refreshesBlobsDurationGetFromComposite.Observe(time.Since(refreshStart).Seconds())
 		ba.refreshesBlobsGetFromComposite.Observe(1)
+	} else {
+		// The lock was dropped while slicing, so blocks may have
+		// been rotated in the meantime. As Location.BlockIndex is
+		// relative to the current list of blocks, the location
+		// obtained previously can no longer be used to register
+		// the slices. Look up the parent again.
+		parentLocation, err = ba.keyLocationMap.Get(parentKey)
+		if err != nil {
+			ba.lock.Unlock()
+			if status.Code(err) == codes.NotFound {
+				// The parent disappeared. The slices can no
+				// longer be registered, but the data that
+				// was sliced is still valid.
+				return bChild
+			}
+			bChild.Discard()
+			return buffer.NewBufferFromError(err)
+		}
 	}
 
 	// Create key-location map entries for each of the slices. This
